@@ -292,3 +292,12 @@ Proof. exact errors_aligned_sec. Qed.
 Lemma vectorised_agrees : forall (X Y : Type) (f : X -> option Y) (F : list X -> list (option Y)) (xs : list X),
   (forall l, F l = map f l) -> F xs = serial_path X Y f xs.
 Proof. exact vectorised_agrees_sec. Qed.
+
+(* any two schedules that let every task finish gather identical results (both equal the serial loop) *)
+Lemma two_schedules_agree : forall (X Y : Type) (f : X -> option Y) (xs : list X) (s1 s2 : list nat),
+  (forall i, i < length xs -> In i s1) -> (forall i, i < length xs -> In i s2) ->
+  executor_path X Y f xs s1 = executor_path X Y f xs s2.
+Proof.
+  intros X Y f xs s1 s2 H1 H2.
+  rewrite (gather_any_schedule X Y f xs s1 H1), (gather_any_schedule X Y f xs s2 H2). reflexivity.
+Qed.
